@@ -6,9 +6,9 @@ cd $W || exit 2
 rm -rf _build
 (cmake -G Ninja -S $W -B $W/_build >/dev/null && cmake --build $W/_build >/dev/null 2>&1) || { echo "BUILD-FAILED"; exit 2; }
 T=$(cd $W/_build && ctest --timeout 900 2>&1 | grep -E "tests passed|tests failed" | head -1)
-cd $W/demo && sh build.sh >/dev/null 2>&1; ./demo >/tmp/demo_with.log 2>&1; RW=$?
+cd $W/demo && bash build.sh >/dev/null 2>&1; ./demo >/tmp/demo_with.log 2>&1; RW=$?
 cd $W && git stash -q -- src include include_prv 2>/dev/null || git stash -q
-cd $W/demo && sh build.sh >/dev/null 2>&1; ./demo >/tmp/demo_without.log 2>&1; RO=$?
+cd $W/demo && bash build.sh >/dev/null 2>&1; ./demo >/tmp/demo_without.log 2>&1; RO=$?
 cd $W && git stash pop -q
 rm -rf $W/_build $W/demo/demo
 echo "tests: $T | demo with change exit=$RW | demo without change exit=$RO"
